@@ -63,6 +63,8 @@ def main():
     ap.add_argument("--n", type=int, default=30)
     a = ap.parse_args()
 
+    import numpy as np
+    np.seterr(all="ignore")      # floating-point warnings of the code under test are not errors; results are unchanged
     import persim  # noqa: F401  (fails loudly if the tree does not import)
     pfile = os.path.realpath(persim.__file__)
     if not pfile.startswith(os.path.realpath(repo) + os.sep):
